@@ -678,3 +678,6 @@ LEVEL_NOTE = ("Trusted: Lean kernel; extractor and harness; encoding/json's text
               "(classes skip:parser-*, skip:direct-build-*), and invalid UTF-8 is the named exclusion skip:invalid-utf8.")
 HARNESS_BIN = "run-io"
 EXTRACT_BINS = ["extract-io"]
+
+# the same requests executed 8 at a time in concurrent goroutines (check: PARALLEL / harness: VERIF_PAR)
+PARALLEL = {"quick": {"par": 8, "max_cases": 1500}, "thorough": {"par": 8, "max_cases": 40000, "race": True}}
